@@ -1,0 +1,27 @@
+//go:build verif
+
+package twig
+
+// Verification hooks (build tag "verif"). Nothing in this file is compiled into
+// a normal build; it only lets a test harness run the attribute cache at a small
+// capacity and look at its size.
+
+// VerifSetAttrCacheMax empties the attribute cache and sets its capacity.
+// It returns the previous capacity.
+func VerifSetAttrCacheMax(n int) int {
+	attributeCache.Lock()
+	defer attributeCache.Unlock()
+	old := attributeCache.maxSize
+	attributeCache.maxSize = n
+	attributeCache.m = make(map[attributeCacheKey]attributeCacheEntry)
+	attributeCache.currSize = 0
+	return old
+}
+
+// VerifAttrCacheStats reports the accounted size, the real number of entries
+// and the capacity of the attribute cache.
+func VerifAttrCacheStats() (currSize, entries, maxSize int) {
+	attributeCache.RLock()
+	defer attributeCache.RUnlock()
+	return attributeCache.currSize, len(attributeCache.m), attributeCache.maxSize
+}
